@@ -59,7 +59,8 @@ fn main() {
         });
         let phase = v["phase"].as_str().unwrap_or("").to_string();
         let mut acc = Acc::new();
-        match (def.replay)(&cx, &phase, &v["case"], &mut acc) {
+        let r = if phase.starts_with("fuzz") { vp::fuzzrun::replay(&cx, &v["case"], &mut acc) } else { (def.replay)(&cx, &phase, &v["case"], &mut acc) };
+        match r {
             Ok(()) => {
                 println!("replay of {path}: property {id} held on this case");
                 std::process::exit(0)
@@ -105,7 +106,7 @@ fn main() {
             let case = v["case"].clone();
             corpus_n += 1;
             let mut sub = Acc::new();
-            let ok = sub.run_case(&cx, &format!("corpus:{phase}"), &case, |a| (def.replay)(&cx, &phase, &case, a));
+            let ok = sub.run_case(&cx, &format!("corpus:{phase}"), &case, |a| if phase.starts_with("fuzz") { vp::fuzzrun::replay(&cx, &case, a) } else { (def.replay)(&cx, &phase, &case, a) });
             if !ok {
                 // keep the original phase so that the replay file decodes.
                 for v in &mut sub.violations {
@@ -118,10 +119,12 @@ fn main() {
     acc.phase_info("corpus", corpus_n, false, "committed regression inputs replayed");
 
     acc.merge((def.run)(&cx));
+    let (facc, fuzz_stats) = vp::fuzzrun::run(&cx);
+    acc.merge(facc);
     let wall = start.elapsed().as_secs_f64();
 
     let health = (def.health)(&acc);
-    let extra = json!({"corpus_cases": corpus_n, "internal_errors": acc.internal_errors, "health": health});
+    let extra = json!({"corpus_cases": corpus_n, "internal_errors": acc.internal_errors, "health": health, "fuzz": fuzz_stats});
     write_evidence(&cx, def.meta, &acc, wall, extra);
 
     println!(
